@@ -9,6 +9,10 @@
 
 namespace vf {
 
+// harness-set limit on the alternatives one error_recovery call may examine (hook H3): far above anything a bounded search
+// needs on the generated sizes; beyond it the parse ends with YAEP_NO_MEMORY and the case counts as "recovery search explosion"
+static const long REC_LIMIT = 2000000;
+
 // ------------------------------------------------------------ library allocator wrappers
 // (the library objects' malloc/calloc/realloc/free are renamed to verif_* by objcopy)
 struct LibAlloc {
